@@ -91,10 +91,7 @@ def polynomial_from_attributes(
         allocation=allocation,
     )
 
-    if coefficients:
-        numpoly.cfrom_attributes(coefficients, poly.values.ravel())
-
-    # for key, values in zip(poly.keys, coefficients):
-    #    poly.values[key] = values
+    for key, values in zip(poly.keys, coefficients):
+        poly.values[key] = values
 
     return poly
